@@ -10,10 +10,11 @@ using namespace mx;
 namespace {
 typedef boost::tuple<ComplexType, ComplexType, ComplexType> FT;
 
-int run(const Args& a, Recorder& rec) {
+int run_sweep(const Args& a, Recorder& rec, bool memcheck) {
     Clock clk; std::vector<PlanItem> plan; bool T = a.thorough();
     auto add = [&](const char* s, int d, bool rich = true) { PlanItem it; it.shape = s; it.depth = d; it.opts.rich = rich; plan.push_back(it); };
-    add("S1", T ? 2 : 1); add("S2", 2); add("S3", T ? 2 : 1); add("S4", 1); add("S5", 1); add("S6", 1, false); if (T) add("S7", 1, false);
+    if (memcheck) { add("S1", T ? 2 : 1); add("S2", 2); add("S3", 1); add("S4", 1); if (T) { add("S5", 1); add("S4r", 1); add("S3", 2, false); } }      // the same sweep on a plan small enough for valgrind (C17M)
+    else { add("S1", T ? 2 : 1); add("S2", 2); add("S3", T ? 2 : 1); add("S4", 1); add("S5", 1); add("S6", 1, false); if (T) add("S7", 1, false); }
     for_each_state(a, rec, plan, [&](Ctx& c0) {
         for (SymMode mode : { SYM_IGNORE, SYM_DEFAULT }) {
             Ctx c; c.sh = c0.sh; c.A = c0.A; c.st = c0.st; c.repr = c0.repr;
@@ -59,5 +60,9 @@ int run(const Args& a, Recorder& rec) {
     for (const char* sid : { "S4", "S4r", "S8" }) for (int mode = 0; mode < 2; ++mode) { if (a.shard != 0) break; marker(std::string("C17 index classification ") + sid + " order_spins=" + std::to_string(mode)); Shape sh = make_shape(sid); Lattice L; build_sites(L, sh); IndexClassification IC(L.getSiteMap()); IC.prepare(mode); for (unsigned i = 0; i < IC.getIndexSize(); ++i) { volatile unsigned s = IC.getIndex(IC.getInfo(i)); (void)s; } rec.evaluations++; }
     return 0;
 }
+int run(const Args& a, Recorder& rec) { return run_sweep(a, rec, false); }
+int run_mem(const Args& a, Recorder& rec) { return run_sweep(a, rec, true); }
 } // namespace
 REGISTER_CHECK("C17", run);
+REGISTER_CHECK("C17M", run_mem);
+
